@@ -5,8 +5,8 @@ from common import from_replay, to_replay  # noqa: F401
 
 PID = "C17"
 COQ_MODULE = "Prop_C17"
-THEOREMS = ['C17_fmt_never_waits', 'C17_fmt_no_disturbance', 'C17_accessors_no_raw_ops']
-CASE_MODULES = ["Monitors"]
+THEOREMS = ['C17_every_history', 'C17_fmt_never_waits', 'C17_fmt_no_disturbance', 'C17_accessors_no_raw_ops']
+CASE_MODULES = ["Pf_Hist", "Monitors"]
 CHECK_WITHOUT_PROOF = True
 TRUSTED = common.TRUSTED_COMMON
 ASSUMPTIONS = common.ASSUME_COMMON
